@@ -624,10 +624,13 @@ def program_recipes(draw, max_q=6, sizes=(2, 3, 4, 5, 6, 8), subs=True, sym=True
                               "tags": draw(tag_lists(1)) if draw(one_in(4)) else []})
             for _ in range(draw(st.sampled_from([1, 1, 2]))):
                 r["cops"].append(draw(_cop_recipes(si, nq)))
+        if draw(one_in(3)):  # a sub-circuit equal to the first one up to its tags, used by its own CircuitOperation
+            r["subs"].append({"moments": r["subs"][0]["moments"], "tags": draw(st.lists(tag_recipes(), min_size=1, max_size=1))})
+            r["cops"].append(draw(_cop_recipes(len(r["subs"]) - 1, nq)))
     npool = draw(st.sampled_from([1, 2, 3, 4, 5]))
     r["moments"] = [{"refs": draw(_moment_refs(len(ops), len(r["cops"]))), "tags": draw(tag_lists(2)) if draw(one_in(4)) else []}
                     for _ in range(npool)]
-    if draw(one_in(12)):  # a moment equal to another one up to its tags
+    if draw(one_in(4)):  # a moment equal to another one up to its tags
         base = dict(r["moments"][draw(st.integers(0, len(r["moments"]) - 1))])
         base["tags"] = draw(tag_lists(1))
         r["moments"].append(base)
@@ -781,7 +784,7 @@ def _meta(draw):
         return None
     if k == "dp":
         return ["dp", draw(st.lists(st.sampled_from(["q1", "readout", "freq", "x"]), min_size=1, max_size=3)),
-                draw(st.sampled_from([None, None, 1, 2, 3, 5, 1, 2, 7, 0 if draw(one_in(6)) else 4])), draw(st.sampled_from([None, "GHz", "ns"]))]
+                draw(st.sampled_from([None, None, 1, 2, 0, 5, 0, 2, 7, 4])), draw(st.sampled_from([None, "GHz", "ns", ""]))]
     dps = draw(st.one_of(st.none(), st.lists(st.tuples(st.lists(st.sampled_from(["q1", "p", "x"]), min_size=1, max_size=2),
                                                         st.sampled_from([None, 1, 2, 3, 0])).map(list), min_size=1, max_size=2)))
     return ["md", dps, draw(st.booleans()), draw(st.one_of(st.none(), st.sampled_from(["lbl", ""]))), draw(st.one_of(st.none(), st.sampled_from(["MHz", ""])))]
@@ -790,7 +793,7 @@ def _meta(draw):
 @st.composite
 def _single(draw, key, exact):
     k = draw(st.sampled_from(["lin", "lin", "lin", "pts", "pts", "pts", "const", "const", "ulin", "upts", "frv"]))
-    if k == "pts" and draw(one_in(40)):
+    if k == "pts" and draw(one_in(15)):
         k = "pts0"
     num = exact_numbers() if exact else numbers()
     if k == "lin":
